@@ -1,7 +1,7 @@
 // Harness for ElectricField (wake potential, padding, CSR spectrum) and WakePotentialMap.  FFTW planning is done natively
 // before the snapshot; plans are recorded (by interposing the planner entry points) so that the symbolic executor can
 // replace fftwf_execute(plan) by a model of the transform on plan->in / plan->out.
-//   snap <prefix> n N spacing cutoffflag b0 b1 ...     (b_i: bucket numbers of the nb filled buckets)
+//   snap <prefix> n N spacing cutoffflag b0 b1 ...     (b_i: bucket numbers of the nb filled buckets; cutoffflag = 10*nbps + cutoff, nbps > 0: phase space with nbps bunches although more buckets are listed)
 //   run  <infile> <outfile>
 #include "snap.hpp"
 #include <dlfcn.h>
@@ -40,8 +40,8 @@ __attribute__((noinline)) meshaxis_t e_wakescaling(ElectricField* f) { return f-
 }
 
 struct W { psp* ps; psp* ps2; std::shared_ptr<Impedance>* z; std::vector<impedance_t>* zv; std::vector<uint32_t>* bk; ElectricField* f; WakePotentialMap* wpm; std::vector<float>* d; };
-static W build(int n, size_t N, int spacing, const std::vector<uint32_t>& bk, int seed, bool maps) {
-    W w{}; int nb = bk.size();
+static W build(int n, size_t N, int spacing, const std::vector<uint32_t>& bk, int seed, bool maps, int nbps = 0) {
+    W w{}; int nb = nbps > 0 ? nbps : (int)bk.size();      // nbps: bunches of the phase space when it differs from the number of listed buckets (main after loading a single-bunch start file)
     PhaseSpace::resetSize(n, nb);
     std::vector<integral_t> fill(nb, 1.0f / nb);
     std::mt19937 g(seed); std::uniform_real_distribution<float> u(0, 1);
@@ -60,10 +60,10 @@ static void dumpf(FILE* f, const char* name, const float* p, size_t n) { fprintf
 int main(int argc, char** argv) {
     std::string mode = argc > 1 ? argv[1] : "";
     if (mode == "snap") {
-        int n = atoi(argv[3]); size_t N = atoi(argv[4]); int spacing = atoi(argv[5]); int cutoff = atoi(argv[6]);
+        int n = atoi(argv[3]); size_t N = atoi(argv[4]); int spacing = atoi(argv[5]); int cutoff = atoi(argv[6]) % 10; int nbps = atoi(argv[6]) / 10;
         std::vector<uint32_t> bk; for (int i = 7; i < argc; i++) bk.push_back(atoi(argv[i]));
-        int nb = bk.size();
-        W w = build(n, N, spacing, bk, 3, true);
+        int nb = nbps > 0 ? nbps : (int)bk.size();
+        W w = build(n, N, spacing, bk, 3, true, nbps);
         snap_root("field", w.f); snap_root("ps", w.ps); snap_root("z", w.z); snap_root("bk", w.bk); snap_root("wpm", w.wpm);
         snap_root("proj0", (*w.ps)->getProjection(0).origin()); snap_root("zdata", (*w.z)->data());
         snap_root("bp_padded", w.f->getPaddedBunchProfiles()); snap_root("wp_padded", w.f->getPaddedWakePotential());
